@@ -9,7 +9,8 @@ from .denote import Den, Builder
 # iterates over the characters of a name ends up at *declared* variables
 # (a silent wrong result rather than an exception).
 NAME_OF = dict(a='a', b='b', c='ab', d='d', e='ba', f='f', g='ga', h='h',
-               i='i', j='ia', k='k', l='l')
+               i='i', j='ia', k="k'", l='l_2', m='m', n='n0', o="o''",
+               p='_p')
 NAMES = tuple(NAME_OF[ch] for ch in 'abcdefgh')
 
 
